@@ -94,6 +94,7 @@ type interpreter struct {
 	fnsSeen            map[string]bool
 	intrSeen           map[string]bool
 	inited             map[*ssa.Package]bool
+	forceInit          *ssa.Function // the dependency initialiser initDependency is about to run
 	extGlobals         map[*ssa.Global]*value
 	curFrame           *frame
 	curInstr           ssa.Instruction
@@ -304,7 +305,6 @@ func visitInstr(fr *frame, instr ssa.Instruction) continuation {
 
 	case *ssa.MakeChan:
 		fr.env[instr] = make(chan value, asInt64(fr.get(instr.Size)))
-
 
 	case *ssa.Alloc:
 		var addr *value
@@ -700,4 +700,3 @@ func doRecover(caller *frame) value {
 	}
 	return iface{}
 }
-
